@@ -42,6 +42,15 @@ def cfg_for(new):
         c = dict(kind=fam, variant=variant, n=n, mode="std" if std else "pollall", never=new.get("never", []))
         c.update(bud)
         return mod, c, None
+    if fam == "co":
+        stack = []
+        for a in json.loads(new.get("stack", "[]")):
+            stack.append(dict(k=a, n=0) if isinstance(a, str) else dict(k=a[0], n=a[1]))
+        c = dict(fam="co", cont=cont, n=n, feat="std" if std else "alloc", sub=True, rdy=True, stream=True, fallible=False,
+                 group=False, never=new.get("never", []), x=-1, maxX=BIG, conts=[], stack=stack, term=new["term"],
+                 limit=new.get("limit", 0), take=new.get("take", -1), nmaps=new.get("nmaps", 0))
+        c.update(bud)
+        return mod, c, None
     rdy = fam in ("merge", "zip", "future_group", "stream_group")
     if fam == "race_ok":
         shape = "tup" if cont in ("tup", "ext") else cont
@@ -114,6 +123,9 @@ def convert(paths, per_module_max=None, stride=1, per_file_max=None):
                 skipped["over the sample size"] = skipped.get("over the sample size", 0) + 1
                 continue
             ev = [e for e in evs if e["e"] not in SKIP_EV]
+            if new["fam"] == "co":
+                # waker identities of third-party (futures-buffered) wakers are not modelled: canonicalise
+                ev = [dict(e, wid=-7) if "wid" in e else e for e in ev]
             lst.append(dict(id=new.get("id", "?"), cfg=cfg, ev=ev))
     return runs, skipped
 
